@@ -130,6 +130,12 @@ _LOG10 = None
 
 def decode(data, width):
     """bytes -> list of signed little-endian ints."""
+    if len(data) > 20000:
+        import array
+        import sys
+
+        if sys.byteorder == "little":  # stdlib decoder for big inputs
+            return array.array({1: "b", 2: "h", 4: "i"}[width], data).tolist()
     return [
         int.from_bytes(data[i : i + width], "little", signed=True)
         for i in range(0, len(data), width)
@@ -150,7 +156,9 @@ def ms_to_db(ms):
 
 
 def mean_square(xs):
-    """xs: list of ints or Fractions."""
+    """xs: list of ints (or Fractions)."""
+    if xs and isinstance(xs[0], int):
+        return Fraction(sum(x * x for x in xs), len(xs))
     return sum(Fraction(x) * Fraction(x) for x in xs) / len(xs)
 
 
@@ -165,8 +173,8 @@ def energy_db(data, width, ch, use_channel):
         return max(ms_to_db(mean_square(c)) for c in chans)
     if use_channel in ("mix", "avg", "average"):
         n = len(chans[0])
-        mixed = [Fraction(sum(c[i] for c in chans), ch) for i in range(n)]
-        return ms_to_db(mean_square(mixed))
+        sums = [sum(t) for t in zip(*chans)]  # per-sample sum over channels; mean = sum / ch
+        return ms_to_db(Fraction(sum(v * v for v in sums), ch * ch * n))
     idx = use_channel
     if idx < 0:
         idx += ch
